@@ -99,6 +99,9 @@ def jobs(tier):
         add('prettify_fixed_d%d' % nd, 'h_prettify', ['C01', 'C04'], 44, dict(ND=nd, PMODE=1), 900, 'prettify_string as dtoa_fixed calls it (INT_MIN, INT_MAX): RFC 8259 number, keeps the floating kind, denotes digits*10^k exactly', 'all digit strings of length %d, every exponent k in [-30,30]' % nd, mem_gb=6)
     for nb in ([1, 3, 5, 7] if not t else [1, 2, 3, 4, 5, 6, 7, 8, 9]):
         add('dump_buffer_n%d' % nb, 'h_dump_buffer', ['C01', 'C04'], 44, dict(NB2=nb), 600, 'dump_buffer: printf float text -> RFC 8259 number with fraction or exponent, characters kept in order', 'all printf-grammar texts of length %d, decimal point . or ,' % nb, mem_gb=6)
+    for wf, wn in ((0, 'general'), (1, 'fixed'), (2, 'scientific')):
+        for r in ((1, 199, 200, 201, 260) if wf == 1 else (199, 200)):
+            add('write_double_%s_r%d' % (wn, r), 'h_write_double', ['C05'], max(r + 12, 24), dict(WFMT=wf, SNRET=r), 600, 'write_double::operator() with explicit precision (%s): the length reported by snprintf is never used to read beyond the stack buffer' % wn, 'snprintf reports %d characters; any text the buffer may hold, any finite double (precision 10; the stub ignores it)' % r, mem_gb=6)
     # C05: the same harnesses in safety mode (clang UBSan traps for signed overflow / shifts / bounds lowered to assertions + CBMC pointer checks)
     SAFETY_IDS = ['dec_u64', 'dec_i64', 'dec_i32', 'hex_i64', 'toi_i64_n3', 'toi_i64_negdec9_n20', 'from_i64_extreme', 'from_i32_extreme', 'from_i8_d3', 'rt_hex_i64', 'is_base10']
     for j in list(J):
